@@ -66,7 +66,7 @@ func c19GroupOf(q *UpQuery) int {
 }
 
 func TestVfC19Prefetch(t *testing.T) {
-	st := vfkit.Stats("TestVfC19Prefetch", "runs of 20-80 independent names: TTL in {6,8,10,12} s, entries primed for 1-3 client groups, then a burst of 1-120 concurrent hits per group (from 1, 2 or 4 client addresses of the group) at a drawn instant inside the last quarter of the lifetime; the upstream holds the refresh reply until all burst responses are collected (or 3 s), then the refresh ends as success (new TTL) / NXDOMAIN / SERVFAIL / REFUSED / garbage / silence / connection closed, over a UDP or a TCP upstream (where transport errors are immediate); oracles: every hit of the burst is answered from the old entry while the refresh is held, exactly one refresh per group is started and in flight, after a successful refresh later hits carry the new fetch, after a failed or negative refresh the old entry is served until its expiry and not 2 s beyond, and a further hit in the window starts a new refresh (the reservation ended with the refresh); non-trivial = burst >= 2 inside the window")
+	st := vfkit.Stats("TestVfC19Prefetch", "runs of 20-80 independent names: TTL in {6,8,10,12} s, entries primed for 1-3 client groups, then a burst of 1-120 concurrent hits per group (from 1, 2 or 4 client addresses of the group) at a drawn instant inside the last quarter of the lifetime; the upstream holds the refresh reply until all burst responses are collected (or 3 s), then the refresh ends as success (new TTL) / NOERROR-NODATA / NXDOMAIN / SERVFAIL / REFUSED / garbage / silence / connection closed, over a UDP or a TCP upstream (where transport errors are immediate); oracles: every hit of the burst is answered from the old entry while the refresh is held, exactly one refresh per group is started and in flight, after a successful refresh later hits carry the new fetch, after a failed or negative refresh the old entry is served until its expiry and not 2 s beyond, and a further hit in the window starts a new refresh (the reservation ended with the refresh); non-trivial = burst >= 2 inside the window")
 	defer vfkit.Flush()
 	block := NextIPBlock()
 	var names sync.Map
@@ -100,6 +100,13 @@ func TestVfC19Prefetch(t *testing.T) {
 			switch n.outcome {
 			case "success":
 				a.Reply = EncodeMsg(KeyedAnswer(q.Msg, "c19", uint32(q.Seq), n.newTTL, 0))
+			case "nodata":
+				// a successful answer that says "no such data any more": NOERROR, empty answer section, SOA in the authority
+				m := KeyedAnswer(q.Msg, "c19", uint32(q.Seq), n.newTTL, 0)
+				m.An = nil
+				zone := q.Msg.Q[0].Name[1:]
+				m.Ns = []vfkit.RR{{Owner: zone, Type: 6, Class: 1, TTL: n.newTTL, RData: []vfkit.RDPart{{IsName: true, Name: append(vfkit.Name{[]byte("ns")}, zone...)}, {IsName: true, Name: append(vfkit.Name{[]byte("hostmaster")}, zone...)}, {Raw: []byte{0, 0, 0, 1, 0, 0, 14, 16, 0, 0, 7, 8, 0, 9, 58, 128, 0, 0, 0, 60}}}}}
+				a.Reply = EncodeMsg(m)
 			case "nxdomain":
 				m := KeyedAnswer(q.Msg, "c19", uint32(q.Seq), 30, 3)
 				a.Reply = EncodeMsg(m)
@@ -167,7 +174,7 @@ func TestVfC19Prefetch(t *testing.T) {
 			// lifetime remain, and 150 ms after the start of the window.
 			q := time.Duration(n.ttl) * time.Second / 4
 			n.burstAt = 3*q + 150*time.Millisecond + time.Duration(rapid.IntRange(0, int((q-1450*time.Millisecond)/time.Millisecond)).Draw(t, "intoWindowMs"))*time.Millisecond
-			n.outcome = rapid.SampledFrom([]string{"success", "success", "nxdomain", "servfail", "refused", "garbage", "silence", "conn-closed"}).Draw(t, "outcome")
+			n.outcome = rapid.SampledFrom([]string{"success", "success", "nodata", "nxdomain", "servfail", "refused", "garbage", "silence", "conn-closed"}).Draw(t, "outcome")
 			n.viaTCP = rapid.Bool().Draw(t, "viaTCP")
 			n.newTTL = rapid.SampledFrom([]uint32{30, 60}).Draw(t, "newTTL")
 			all[i] = n
@@ -396,7 +403,7 @@ func TestVfC19Prefetch(t *testing.T) {
 				time.Sleep(400 * time.Millisecond)
 				expiry := lastPrime.Add(time.Duration(n.ttl) * time.Second)
 				for g := range n.groups {
-					if time.Until(expiry) < 1300*time.Millisecond && n.outcome != "success" {
+					if time.Until(expiry) < 1300*time.Millisecond && n.outcome != "success" && n.outcome != "nodata" {
 						continue // within the cache clock's granularity of the old entry's expiry: cannot be judged
 					}
 					fetchesBefore := n.nonPrime[g].Load()
@@ -407,6 +414,15 @@ func TestVfC19Prefetch(t *testing.T) {
 					}
 					s, ok := serialOf(r)
 					switch n.outcome {
+					case "nodata":
+						// a successful refresh as well: the positive entry is replaced by what the upstream says now
+						if !refreshed[g] {
+							continue
+						}
+						if r.Msg.Rcode() != 0 || len(r.Msg.An) != 0 {
+							fail("%s: after a successful refresh that came back as NOERROR/NODATA, group %d is still served the old positive entry (%d answers, rcode %d)", n.label, g, len(r.Msg.An), r.Msg.Rcode())
+							return
+						}
 					case "success":
 						if !refreshed[g] {
 							continue // no refresh was started for this group (allowed: the statement says at most one)
@@ -447,7 +463,7 @@ func TestVfC19Prefetch(t *testing.T) {
 					}
 				}
 				n.after.Store(true)
-				if n.outcome != "success" && n.outcome != "silence" && n.outcome != "conn-closed" {
+				if n.outcome != "success" && n.outcome != "nodata" && n.outcome != "silence" && n.outcome != "conn-closed" {
 					// and not beyond its expiry (+2 s)
 					time.Sleep(time.Until(expiry.Add(2200 * time.Millisecond)))
 					r := ask(0, 70)
